@@ -8,7 +8,9 @@
 (* material) and the scope set of an issued token it carried.              *)
 (*  NoLeak     a secret of host h goes to h, or (password / refresh token) *)
 (*             to the token endpoint on the realm h advertised, for a      *)
-(*             token request naming service h                              *)
+(*             token request naming service h (and, where the realm URL    *)
+(*             is per registry, to the realm URL h advertised); a service  *)
+(*             name is the challenger's free choice and proves nothing     *)
 (*  Bounded    at most 3 sends to the registry and 1 token fetch per call  *)
 (*  Succeeds   with valid credentials the call ends with a non-401 answer  *)
 (*  Coalesce   identical concurrent calls cause one token fetch            *)
@@ -62,7 +64,8 @@ SecretOK(s, r) ==
   LET owner == s[1]  kind == s[2] IN
   IF kind \in {"token", "access"} THEN r.dest = owner /\ r.kind = "registry"
   ELSE \/ (r.dest = owner /\ r.kind = "registry")
-       \/ (r.kind = "token" /\ r.dest = RealmOf(owner) /\ r.service = owner)
+       \* (tokfor: the registry a per-registry realm URL belongs to, "" when the realm URL does not say)
+       \/ (r.kind = "token" /\ r.dest = RealmOf(owner) /\ r.service = owner /\ r.tokfor \in {"", owner})
 
 EvSend ==
   /\ Rec.e = "send"
